@@ -273,7 +273,9 @@ def hostile(ctx, name):
 # whole processes (the interpreter's exit joins every non-daemon thread, which no in-process run can see): the server's answers
 # are a SEQUENCE, one per request the tool may make
 SEQUENCES = [["hang"], ["503", "hang"], ["500", "500", "hang"], ["refuse", "hang"], ["404", "hang"], ["slow"], ["ok", "hang"],
-             ["garbage", "hang"], ["timeout", "hang"]]
+             ["garbage", "hang"], ["timeout", "hang"],
+             # a console that cannot show every character: the notice must not turn the command's result into an encoding error
+             ["@latin-1", "ok"], ["@cp1252", "ok"], ["@ascii", "ok"]]
 PROC_SRC = r"""
 import sys, json, time, threading
 spec = json.loads(sys.argv[1])
@@ -320,11 +322,17 @@ def process_level(ctx, seq):
     import sys
     ok, bad, sealed = prepare(ctx)
 
+    enc = seq[0][1:] if seq and seq[0].startswith("@") else None   # "@latin-1": the encoding of the process's standard streams
+    seq = [x for x in seq if not x.startswith("@")]
+
     def once(sq):
         t0 = time.time()
         try:
+            env = dict(os.environ, PYTHONHASHSEED="0")
+            if enc:
+                env["PYTHONIOENCODING"] = enc
             p = subprocess.run([sys.executable, "-c", PROC_SRC, json.dumps({"seq": sq, "root": ok})], capture_output=True, text=True,
-                               timeout=25, env=dict(os.environ, PYTHONHASHSEED="0"))
+                               errors="replace", timeout=25, env=env)
             return time.time() - t0, p.returncode, p.stdout
         except subprocess.TimeoutExpired:
             return 25.0, None, ""
@@ -337,7 +345,7 @@ def process_level(ctx, seq):
         if t - tb < 1.8:
             break
     t, e, o = best
-    return ("+".join(seq), round(t - tb, 3), e, eb, o.startswith(ob) if o is not None else False)
+    return (("@" + enc + " " if enc else "") + "+".join(seq), round(t - tb, 3), e, eb, o.startswith(ob) if o is not None else False)
 
 
 def process_viols(res):
